@@ -186,6 +186,25 @@ CHECKS.update({
              'against the write log); loop termination not verified; pyvc, '
              'z3.',
         ref='DESIGN.md section 4 C20'),
+    'C16': dict(
+        text='safe_decode / safe_encode / to_utf8 proved with codecs as '
+             'uninterpreted operators that may raise UnicodeError subclasses '
+             'or LookupError: TypeError exactly for non-text; str returned '
+             'as the same object by safe_decode; bytes decoded with the given '
+             'encoding and errors policy, UTF-8 fallback with the same policy '
+             'only on UnicodeDecodeError; safe_encode uses the lower-cased '
+             'encoding and policy, returns bytes as the same object when '
+             'empty or when incoming/encoding agree case-insensitively, '
+             'otherwise transcodes; round trip from the law decode(encode(t, '
+             'e), e) == t; to_utf8. Bounded stand-in (real codecs): 40 '
+             'strings x 8 encodings x 3 cases x 3 policies, arbitrary byte '
+             'blobs; to_slug alphabet / single hyphens / idempotence over '
+             'all strings of length <= 2 (sampled 3) of a 26-symbol alphabet '
+             '+ 400 longer ones.',
+        note='A-CODEC (codec law + raise sets), str.lower uninterpreted; '
+             'to_slug is bounded only (unicodedata + regex substitutions are '
+             'outside the deductive reach); pyvc, z3.',
+        ref='DESIGN.md section 4 C16'),
     'C10': dict(
         text='(1) Regular-language lemmas (z3 RegLan, translated on every run '
              'from the real pattern strings in UNIT_SYSTEM_INFO via CPython\'s '
